@@ -72,10 +72,20 @@ def evaluate(parser, T, A, mother, cap=None):
     if len(got) != n:
         return False, "length", (f"expected {n} descriptors (sum over lines of product over daughters), got {len(got)}: "
                                  f"missing {_short(_diff(want, got))} extra {_short(_diff(got, want))}"), ""
-    if got == want:
-        return True, "paths", "", ""
-    if cs.same_paths_as_multiset(got, want):
-        return True, "paths", "", "order_only"
+    if got == want or cs.same_paths_as_multiset(got, want):
+        # the answer must not depend on what the instance was asked before: cut the chain at every other table
+        # (stable set) once, then ask again
+        others = [m for m in T if m != mother]
+        if others:
+            try:
+                parser.build_decay_chains(mother, stable_particles=others)
+                again = parser.expand_decay_modes(mother)
+            except Exception as ex:
+                return False, "paths.after_history", f"after build_decay_chains({mother!r}, stable_particles={others}) raised {ex!r}", ""
+            if again != got:
+                return False, "paths.after_history", (f"after build_decay_chains({mother!r}, stable_particles={others}) the expansion changed: "
+                                                      f"missing {_short(_diff(got, again))} extra {_short(_diff(again, got))}"), ""
+        return True, "paths", "", ("" if got == want else "order_only")
     return False, "paths", f"missing {_short(_diff(want, got))} extra {_short(_diff(got, want))}", ""
 
 
